@@ -216,9 +216,10 @@ func checkC05(c *core.Ctx) {
 	}
 	gen := &QGen{MaxDepth: 3}
 	runGrammarCheck(c, queryBind(), GrammarPlan{
-		DevNames: map[string]bool{"EmptyDocument": true, "VarDirectivesNonConst": true},
-		Invs:     "Nesting ConstNoVar TypeOK",
-		MaxTok:   [2]int{6, 7}, Cover: [2]int{12, 16}, NDocs: [2]int{400, 6000},
+		PrinterKind: "query",
+		DevNames:    map[string]bool{"EmptyDocument": true, "VarDirectivesNonConst": true},
+		Invs:        "Nesting ConstNoVar TypeOK",
+		MaxTok:      [2]int{6, 7}, Cover: [2]int{12, 16}, NDocs: [2]int{400, 6000},
 		TraceModule: "QueryGrammar_Trace", ClassOf: classOfQueryToken, MutPool: queryMutPool,
 		Gen: func(i int, rng *rand.Rand) ([]GT, []RTok, bool) {
 			gen.R = rng
